@@ -1,7 +1,7 @@
 (* Model/Hpack.v (group h2): executable model of pkg/module/http2/hpack (fork of x/net/http2/hpack):
    huffman.go, tables.go, encode.go, hpack.go.  Definitions only.
    Tables come from Gen/HpackTables.v (dumped from the fork on every run). *)
-From Coq Require Import List NArith Bool.
+From Coq Require Import List NArith ZArith Bool.
 From MV Require Import Lib.HBits Gen.HpackTables Gen.H2Src.
 Import ListNotations.
 Open Scope N_scope.
@@ -173,13 +173,32 @@ Definition dt_add (t : dtab) (nm vl : bytes) : dtab :=
 
 Definition dt_new (mx : N) : dtab := mkDtab [] 0 mx mx.
 
-(* Decoder.at *)
-Definition tab_at (t : dtab) (i : N) : hout (option (bytes * bytes)) :=
+(* Decoder.at.  Go converts the uint64 index to int where it indexes the dynamic table.
+   go_int = int(uint64): values >= 2^63 become negative. *)
+Definition go_int (x : N) : Z := if x <? 9223372036854775808 then Z.of_N x else (Z.of_N x - 18446744073709551616)%Z.
+
+(* Go l[z] with an int index *)
+Definition index_atZ {A} (l : list A) (z : Z) : hout A :=
+  if (z <? 0)%Z then HPanic else index_at l (Z.to_N z).
+
+(* `u64cmp` (Gen/H2Src.v h2_hpack_at_u64cmp, read from the source):
+   true  - the range test is made on the uint64 value, `i > uint64(d.maxTableIndex())`, BEFORE the conversion:
+           past it i <= len+61 (a Go int), so int(i) = i and the index dt.len()-(int(i)-61) is computed exactly;
+   false - the index is converted first, `pos := int(i) - staticTable.len(); if pos > dt.len() { return }`,
+           and the test is made on the int: an index >= 2^63 is negative, passes, and dt.ents[dt.len()-pos] panics. *)
+Definition tab_at_gen (u64cmp : bool) (t : dtab) (i : N) : hout (option (bytes * bytes)) :=
   if i =? 0 then HOk None
   else if i <=? static_len then hbind (index_at hpack_static_table (i - 1)) (fun e => HOk (Some e))
   else let dl := N.of_nat (length (dt_ents t)) in
-       if dl + static_len <? i then HOk None
-       else hbind (index_at (dt_ents t) (dl - (i - static_len))) (fun e => HOk (Some e)).
+       if u64cmp then
+         if dl + static_len <? i then HOk None
+         else hbind (index_at (dt_ents t) (dl - (i - static_len))) (fun e => HOk (Some e))
+       else
+         let pos := (go_int i - Z.of_N static_len)%Z in
+         if (Z.of_N dl <? pos)%Z then HOk None
+         else hbind (index_atZ (dt_ents t) (Z.of_N dl - pos)%Z) (fun e => HOk (Some e)).
+
+Definition tab_at := tab_at_gen h2_hpack_at_u64cmp.
 
 (* ================================================================= decoder (hpack.go) *)
 Record hfield := mkF { hname : bytes; hvalue : bytes; hsens : bool }.
